@@ -357,13 +357,163 @@ def gen_history(rng, cid, neps=3, nitems=6, kinds=('chain', 'unseg', 'orphan', '
         frames.append(streams[i][idx[i]]); idx[i] += 1
     return Case(cid, [feed_line(1, f) for f in frames], dict(frames=frames, eps=eps))
 
+BIG_SPLITS = [[65535, 0], [65519, 0], [65520, 0], [65519, 1], [40000, 25535], [40000, 25520], [30000, 30000, 5535], [65535, 0, 0], [1, 65534],
+              [40000, 25536], [40000, 30000], [8000] * 9, [65535, 1], [65535, 65535], [1400] * 47, [60000, 5000, 535, 0]]
+
+def big_chain_cases(rng, tag, thorough=False):
+    """segmented messages whose TOTAL payload is at, just below and above the 16-bit limits (65519/65520/65535/65536/...):
+    few large segments, or many MTU-sized ones; alone, and interleaved with a small chain of a neighbouring endpoint"""
+    cases = []
+    splits = BIG_SPLITS if thorough else [BIG_SPLITS[i] for i in (0, 2, 4, 6, 9, 10, 11, 14)]
+    for i, sizes in enumerate(splits):
+        r = rng.fork('%s%d' % (tag, i))
+        e = (r.below(65536), r.below(256))
+        start = r.choice([0, 65535, 65534, r.below(65536)])
+        fr = chain_frames(r, e, start, len(sizes), sizes=sizes, trail=r.chance(1, 2))
+        if r.chance(1, 2):
+            e2 = (e[0] ^ 1, e[1])
+            other = chain_frames(r, e2, r.below(65536), 3)
+            fr = fr[:1] + other[:2] + fr[1:] + other[2:]
+        # afterwards a small complete chain on the same endpoint: the big one must not have damaged the decoder
+        fr += chain_frames(r, e, start + len(sizes) + 3, 2)
+        cases.append(Case('%s%d' % (tag, i), [feed_line(1, f) for f in fr], dict(frames=fr, eps=[e])))
+    return cases
+
+def many_endpoint_cases(rng, tag, thorough=False):
+    """N endpoints (several device ids x stream ids) with a reassembly pending at the same moment: all first segments, then the
+    remaining segments in another order; N around 255/256/257 and beyond"""
+    cases = []
+    for i, n in enumerate([255, 256, 257, 300, 513] + ([1025, 4097] if thorough else [])):
+        r = rng.fork('%s%d' % (tag, i))
+        base = r.below(65536)
+        eps = [((base + j // 200) & 0xFFFF, j % 200) for j in range(n)]
+        chains = [chain_frames(r, e, r.below(65536), r.choice([2, 2, 3]), sizes=None, trail=False) for e in eps]
+        fr = [c[0] for c in chains]
+        order = list(range(n))
+        # Fisher-Yates with the case's own stream
+        for a in range(n - 1, 0, -1):
+            b = r.below(a + 1); order[a], order[b] = order[b], order[a]
+        for j in order:
+            fr += chains[j][1:]
+        cases.append(Case('%s%d' % (tag, i), [feed_line(1, f) for f in fr], dict(frames=fr, eps=eps)))
+    return cases
+
+def copy_cases(rng, tag, n):
+    """a Decoder is copied while reassemblies are pending; original and copy then both receive the remaining frames (any merge order).
+    A copy is a separate instance: each must behave as the reference decoder with a deep copy of the state"""
+    cases = []
+    for i in range(n):
+        r = rng.fork('%s%d' % (tag, i))
+        eps = [(r.below(65536), r.below(4)) for _ in range(r.range(1, 3))]
+        streams = []
+        for e in eps:
+            fr = []
+            seq = r.below(65536)
+            for _ in range(r.range(1, 3)):
+                c = chain_frames(r, e, seq, r.range(2, 5), sizes=[r.choice([1, 7, 40, 300, 706]) for _ in range(5)]); fr += c; seq += len(c)
+            streams.append(fr)
+        frames = []
+        idx = [0] * len(streams)
+        while any(idx[j] < len(streams[j]) for j in range(len(streams))):
+            j = r.choice([j for j in range(len(streams)) if idx[j] < len(streams[j])])
+            frames.append(streams[j][idx[j]]); idx[j] += 1
+        cut = r.range(1, max(1, len(frames) - 1))
+        ops = [('feed', 1, f) for f in frames[:cut]] + [('copy', 2, 1)]
+        rest1 = [('feed', 1, f) for f in frames[cut:]]
+        rest2 = [('feed', 2, f) for f in frames[cut:]]
+        k = r.below(3)
+        ops += (rest1 + rest2) if k == 0 else (rest2 + rest1) if k == 1 else merge_keep_order(r, rest1, rest2)
+        lines = [feed_line(o[1], o[2]) if o[0] == 'feed' else 'DCOPY %d %d' % (o[1], o[2]) for o in ops]
+        cases.append(Case('%s%d' % (tag, i), lines, dict(ops=ops)))
+    return cases
+
+def judge_copy(case, lines):
+    import copy
+    an = anomalies(lines)
+    if an:
+        return 'anomaly: ' + an[0]
+    calls = calls_of(lines)
+    refs = {}
+    ci = 0
+    for o in case.meta['ops']:
+        if o[0] == 'copy':
+            if o[2] in refs:
+                refs[o[1]] = copy.deepcopy(refs[o[2]])
+            continue
+        if ci >= len(calls):
+            return 'transcript ends after %d decode calls' % ci
+        n, ks, _ = calls[ci]; ci += 1
+        exp = refs.setdefault(o[1], RefDecoder()).feed(o[2])
+        if exp is None:
+            continue
+        if len(ks) != len(exp):
+            return 'decoder %d, call %d: %d packets returned, its own history yields %d (a copied decoder shares state with its original?)' % (o[1], ci - 1, len(ks), len(exp))
+        for g, e in zip(ks, exp):
+            if g[0] != e[0] or g[1] != e[1]:
+                return 'decoder %d, call %d: packet differs from what its own history yields (length %d vs %d)' % (o[1], ci - 1, g[0][13], e[0][13])
+    return None
+
+def alias_partner(r, e):
+    """another endpoint that collides with e under some plausible folding of the 24-bit (device, stream) key"""
+    d, s = e
+    s2 = r.choice([s ^ 1, s ^ 2, s ^ 0x80, (s + 1) & 255, r.below(256), 0])
+    if s2 == s:
+        s2 = s ^ 1
+    sh = r.choice([0, 4, 8, 8, 8])
+    k = r.below(6)
+    if k == 0:
+        d2 = (d ^ ((s ^ s2) << sh)) & 0xFFFF           # xor fold
+    elif k == 1:
+        d2 = (d + ((s - s2) << sh)) & 0xFFFF           # additive fold
+    elif k == 2:
+        d2 = d | ((s ^ s2) << sh) & 0xFFFF             # or fold
+    elif k == 3:
+        d2, s2 = d ^ 0x100 ^ (r.below(255) << 8), s    # same low byte of the device id
+    elif k == 4:
+        d2 = d ^ (1 << r.range(8, 15))                 # one high bit
+    else:
+        d2, s2 = (d & 0xFF) | (r.below(256) << 8), s   # device id truncated to 8 bits
+    if (d2 & 0xFFFF, s2) == (d, s):
+        d2 ^= 0x100
+    return d2 & 0xFFFF, s2
+
+def alias_cases(rng, tag, n):
+    """two or three endpoints whose (device, stream) pairs collide under plausible foldings of the 24-bit key (xor / or / add of the stream
+    id into the device id at bit 0, 4, 8; truncation to 8 or 16 bits), each with chains in flight at the same time, counters equal or apart"""
+    cases = []
+    for i in range(n):
+        r = rng.fork('%s%d' % (tag, i))
+        d, s = r.below(65536), r.below(256)
+        d2, s2 = alias_partner(r, (d, s))
+        eps = [(d, s), (d2 & 0xFFFF, s2)]
+        same = r.chance(1, 2)
+        c0 = r.choice([0, 1, 65535, r.below(65536)])
+        starts = [c0, c0 if same else r.below(65536)]
+        mt, ver = r.choice([1, 3]), r.range(1, 255)
+        chains = [chain_frames(r, eps[j], starts[j], r.range(2, 4), mt=mt, ver=ver) for j in range(2)]
+        # all interleavings are legal; take a random merge, biased to alternate
+        a, b = chains
+        fr = []
+        ia = ib = 0
+        while ia < len(a) or ib < len(b):
+            if ib >= len(b) or (ia < len(a) and r.chance(1, 2)):
+                fr.append(a[ia]); ia += 1
+            else:
+                fr.append(b[ib]); ib += 1
+        cases.append(Case('%s%d' % (tag, i), [feed_line(1, f) for f in fr], dict(frames=fr, eps=eps)))
+    return cases
+
 def frame_ep(f):
     if len(f) < 8 or f[0] == 0:
         return None
     return (int.from_bytes(f[2:4], 'big'), f[5])
 
 def gen_c18(rng, cid):
-    c = gen_history(rng, cid, neps=rng.range(2, 4), nitems=5)
+    return with_projections(gen_history(rng, cid, neps=rng.range(2, 4), nitems=5))
+
+def with_projections(c):
+    """the interleaved history on decoder 1, then, per endpoint, only its own frames on a fresh decoder"""
+    cid = c.cid
     frames = c.meta['frames']
     eps = list(dict.fromkeys(e for e in (frame_ep(f) for f in frames) if e is not None))
     lines = list(c.lines)
@@ -456,14 +606,36 @@ def apply_faults(rng, frames, nfaults, positions=None):
             seqv[p] = (f[:4] + bytes([nm]) + f[5:], i, ('mt', nm) if c is None else ('both', c, nm))
     return seqv
 
-def gen_c06(rng, cid, exhaustive_pos=None):
+def merge_keep_order(rng, a, b):
+    out = []
+    ia = ib = 0
+    while ia < len(a) or ib < len(b):
+        if ib >= len(b) or (ia < len(a) and rng.chance(1, 2)):
+            out.append(a[ia]); ia += 1
+        else:
+            out.append(b[ib]); ib += 1
+    return out
+
+def gen_c06(rng, cid, exhaustive_pos=None, second_endpoint=False):
     e = (rng.below(65536), rng.below(256))
     frames, sent = gen_stream(rng, e, rng.range(2, 8))
     faulty = apply_faults(rng, frames, rng.range(1, 4) if exhaustive_pos is None else 1, None if exhaustive_pos is None else [exhaustive_pos])
-    # recovery: a fresh complete chain and a fresh unsegmented message afterwards, in order and uninterrupted
+    # recovery: a fresh complete chain and a fresh unsegmented message afterwards, in order and uninterrupted on the endpoint
     rec, rsent = gen_stream(rng, e, 2)
-    hist = [f for f, _, _ in faulty] + rec
-    return Case(cid, [feed_line(1, f) for f in hist], dict(frames=hist, sent=sent, faulty=faulty, rec=rsent, nrec=len(rec)))
+    part1 = [f for f, _, _ in faulty]
+    part2 = list(rec)
+    if second_endpoint:
+        # an unfaulted stream of ANOTHER endpoint (one that collides with e under sloppy key foldings) runs through the whole history
+        e2 = alias_partner(rng, e)
+        f2, s2 = gen_stream(rng, e2, rng.range(3, 6))
+        cut = rng.below(len(f2) + 1)
+        part1 = merge_keep_order(rng, part1, f2[:cut])
+        part2 = merge_keep_order(rng, part2, f2[cut:])
+        for x in s2:
+            x['frames'] = [100000 + i for i in x['frames']]
+        sent = sent + s2
+    hist = part1 + part2
+    return Case(cid, [feed_line(1, f) for f in hist], dict(frames=hist, sent=sent, faulty=faulty, rec=rsent, nrec=len(part2), npart1=len(part1), ep=e))
 
 def judge_c06(case, lines):
     an = anomalies(lines)
@@ -473,8 +645,11 @@ def judge_c06(case, lines):
     calls = calls_of(lines)
     if len(calls) != len(m['frames']):
         return 'transcript has %d decode calls, script %d' % (len(calls), len(m['frames']))
-    nf = len(m['faulty'])
-    delivered = [k for (n, ks, _) in calls[:nf] for k in ks]
+    nf = m.get('npart1', len(m['faulty']))
+    delivered = [k for (n, ks, _) in calls for k in ks] if 'ep' in m else [k for (n, ks, _) in calls[:nf] for k in ks]
+    if 'ep' in m:
+        # the recovery messages are sent messages too
+        delivered = [k for (n, ks, _) in calls[:nf] for k in ks] + [k for (n, ks, _) in calls[nf:] for k in ks if (k[0][1], k[0][2]) != tuple(m['ep'])]
     # every delivered packet must be byte-identical to a sent one; version / message type may differ only when the frames that
     # carried it were corrupted (a decoder cannot notice that)
     corrupted_idx = {i for (_, i, c) in m['faulty'] if c is not None}
@@ -493,7 +668,7 @@ def judge_c06(case, lines):
                 ok = True; break
         if not ok:
             return 'delivered packet is not one of the sent messages (ts=%d len=%d payload %s..)' % (k[0][6], k[0][13], k[1][:16].hex())
-    rec = [k for (n, ks, _) in calls[nf:] for k in ks]
+    rec = [k for (n, ks, _) in calls[nf:] for k in ks if 'ep' not in m or (k[0][1], k[0][2]) == tuple(m['ep'])]
     want = [s['exp'] for s in m['rec']]
     if [(k[0], k[1]) for k in rec] != [(w[0], w[1]) for w in want]:
         return 'after the faults, the complete in-order messages were not delivered (%d of %d)' % (len(rec), len(want))
